@@ -335,3 +335,105 @@ Section Clade.
         now rewrite (kids_of_remove_none _ _ Hj) in PG.
   Qed.
 End Clade.
+
+(** * without monophyly: the group is still on the outgroup side of the chosen branch *)
+Section Inside.
+  Variable grp : list string.
+  Variable t2 : utree.
+  Hypothesis Hk : 0 < length grp.
+  Hypothesis Hwf : wf t2 = true.
+  Hypothesis Hdeg : 2 <= degree t2.
+  Hypothesis HND : NoDup (leaves t2).
+  Hypothesis HG : NoDup grp.
+  Hypothesis HI : incl grp (leaves t2).
+
+  Lemma nin_full_incl L : NoDup L -> nin grp L = length grp -> incl grp L.
+  Proof.
+    intros HL Hn. unfold nin in Hn.
+    assert (P : Permutation (filter (inb grp) L) grp).
+    { apply NoDup_Permutation_bis; [now apply NoDup_filter | lia|].
+      intros x Hx. apply filter_In in Hx as [_ Hx]. unfold inb in Hx. now apply smem_In. }
+    intros x Hx. apply Permutation_sym in P. apply (Permutation_in _ P) in Hx.
+    now apply filter_In in Hx as [Hx _].
+  Qed.
+
+  Lemma sel_leaves_incl n p :
+    node_at t2 p = Some n -> kids n <> [] -> cin grp n = length grp ->
+    incl grp (selleaves grp (uslots n)).
+  Proof.
+    intros Hn Hkids Hc.
+    assert (Ln : leaves n = slot_leaves (uslots n)).
+    { destruct n as [nm c sl]. apply leaves_node. exact Hkids. }
+    assert (NDn : NoDup (slot_leaves (uslots n))) by (rewrite <- Ln; eapply node_at_NoDup; eauto).
+    destruct (slot_leaves_filter_NoDup (sel grp) (uslots n) NDn) as [ND _].
+    apply nin_full_incl; auto.
+    unfold selleaves. fold (selleaves grp (uslots n)). rewrite sel_unsel_nin by exact Hk.
+    unfold cin in Hc. rewrite Ln in Hc. exact Hc.
+  Qed.
+
+  Theorem root_edge_inside p es d pp ks lower :
+    lca_rec grp (length grp) t2 = LFound p es d ->
+    root_edge t2 p es = Ok (pp, ks, lower) ->
+    exists P e ch,
+      node_at t2 pp = Some P /\ nth_error (uslots P) ks = Some (Some (e, ch)) /\
+      (lower = true -> incl grp (leaves ch)) /\
+      (lower = false -> pp = [] /\ incl grp (slot_leaves (remove_nth ks (uslots P)))).
+  Proof.
+    intros HL HR.
+    pose proof (lca_spec_root grp Hk t2 Hwf Hdeg) as HS. rewrite HL in HS.
+    inversion HS as [|p' es' d' n Hn [Hc Hf] _ _]; subst.
+    unfold root_edge in HR. rewrite Hn in HR.
+    assert (PE : forall r, match p with [] => Err "model: the root has no parent branch"%string
+                                   | _ :: _ => Ok (removelast p, last p 0, true) end = Ok r ->
+                 p <> [] /\ r = (removelast p, last p 0, true)).
+    { intros r H. destruct p; [discriminate|]. split; [discriminate|congruence]. }
+    destruct Hf as [[Hs [He [_ Hi]]]|[Hkids [He Hd]]].
+    - assert (Dn : degree n = 1) by (unfold degree; now rewrite Hs).
+      rewrite Dn in HR. simpl Nat.eqb in HR. cbv iota in HR.
+      destruct (PE _ HR) as [Hp Er]. inversion Er; subst pp ks lower.
+      destruct (node_at_last t2 p n Hp Hn) as [P [e [HP HK]]].
+      exists P, e, n. split; [exact HP|]. split; [exact HK|]. split; [|discriminate]. intros _.
+      assert (Ln : leaves n = [uname n]) by (destruct n as [nm c sl]; simpl in Hs; subst sl; reflexivity).
+      unfold cin, nin in Hc. rewrite Ln in Hc. simpl in Hc. rewrite Hi in Hc. simpl in Hc.
+      rewrite Ln. destruct grp as [|g [|g2 r]]; simpl in Hc; try discriminate.
+      unfold inb in Hi. simpl in Hi. rewrite orb_false_r in Hi. apply String.eqb_eq in Hi.
+      subst. apply incl_refl.
+    - assert (Dn : Nat.eqb (degree n) 1 = false).
+      { apply Nat.eqb_neq. destruct p as [|k0 r0].
+        - simpl in Hn. inversion Hn; subst. lia.
+        - assert (W : wf_sub n = true) by (eapply (node_at_wf_sub (k0 :: r0)); eauto; discriminate).
+          destruct n as [nm c sl]. rewrite wf_sub_unfold in W. apply andb_true_iff in W as [W _].
+          apply Nat.eqb_eq in W. unfold degree, kids in *. simpl in *.
+          rewrite length_slots, W. destruct (kids_of sl); [congruence|simpl; lia]. }
+      rewrite Dn in HR.
+      destruct (Nat.eqb (degree n - length es) 1) eqn:E1; simpl in HR; [|discriminate].
+      apply Nat.eqb_eq in E1.
+      destruct (first_not_in es 0 (degree n)) as [j|] eqn:EF; [|discriminate].
+      rewrite He in E1, EF. unfold degree in E1, EF.
+      destruct (one_unselected grp (uslots n) j E1 EF) as [s [Hj [Hsel Hfil]]].
+      rewrite Hj in HR.
+      assert (SL : selleaves grp (uslots n) = slot_leaves (remove_nth j (uslots n))).
+      { unfold selleaves. now rewrite Hfil. }
+      assert (PG : incl grp (selleaves grp (uslots n))).
+      { eapply sel_leaves_incl; eauto. }
+      destruct s as [[ei ci]|].
+      + inversion HR; subst pp ks lower.
+        assert (U0 : n_up (uslots n) = 0).
+        { rewrite (n_up_remove_nth _ _ _ Hj), <- Hfil, Nat.add_0_r.
+          apply n_up_all_some, sel_slots_some. }
+        assert (Hp : p = []).
+        { destruct p as [|k0 r0]; auto.
+          assert (W : wf_sub n = true) by (eapply (node_at_wf_sub (k0 :: r0)); eauto; discriminate).
+          destruct n as [nm c sl]. rewrite wf_sub_unfold in W. apply andb_true_iff in W as [W _].
+          apply Nat.eqb_eq in W. simpl in U0. lia. }
+        exists n, ei, ci. split; [exact Hn|]. split; [exact Hj|]. split; [discriminate|].
+        intros _. split; [exact Hp | rewrite <- SL; exact PG].
+      + destruct (PE _ HR) as [Hp Er]. inversion Er; subst pp ks lower.
+        destruct (node_at_last t2 p n Hp Hn) as [P [e [HP HK]]].
+        exists P, e, n. split; [exact HP|]. split; [exact HK|]. split; [|discriminate]. intros _.
+        assert (Ln : leaves n = slot_leaves (uslots n)).
+        { destruct n as [nm c sl]. apply leaves_node. exact Hkids. }
+        rewrite Ln. rewrite SL in PG. unfold slot_leaves in *.
+        now rewrite (kids_of_remove_none _ _ Hj) in PG.
+  Qed.
+End Inside.
